@@ -260,3 +260,15 @@ func runDebugSTerm(spec string) int {
 	}
 	return 0
 }
+
+func init() {
+	debugRules["r3"] = func(c *Ctx, r *Report) {
+		ruleCounting(c, r, "", "")
+		ruleRawEOFFlag(c, r, "")
+		ruleDecoderReadErr(c, r, "")
+		ruleBudgetFresh(c, r, "")
+		ruleHashTableAlloc(c, r, "")
+		ruleBlockWriterHash(c, r, "")
+		ruleBlockFilters(c, r, "")
+	}
+}
